@@ -296,7 +296,7 @@ def _plan(tier):
 
 def run(rep: Report):
     tier = rep.tier
-    opts = {"prove_timeout_ms": 15000 if tier == "quick" else 60000, "fork_timeout_ms": 2000, "seed": rep.seed, "scenario_wall_s": 240 if tier == "quick" else 1200}
+    opts = {"prove_timeout_ms": 15000 if tier == "quick" else 60000, "fork_timeout_ms": 2000, "seed": rep.seed, "scenario_wall_s": 900 if tier == "quick" else 1200}
     run_plan(rep, _plan(tier), SCENARIOS, opts)
     rep.bounds = {"particles": "2 atoms before the trial (the obligations are per trial and per particle count N; N enters symbolically only through the concrete 2, 3, 1)", "trials": "1 real trial per ensemble", "temperature/pressure/mu": "concrete (300 K, 0.02 eV/A^3, -0.3 eV); the decision function itself is checked for symbolic values in C02"}
     rep.assumptions = ["detailed balance + the proposals' symmetry is the sufficient condition decided; ergodicity/irreducibility, convergence rate, statistical error, rounding and PRNG quality are outside", "energies from an uninterpreted PES: the identity holds for every potential, in particular the harmonic, dipole and ideal-gas systems of the statement"]
